@@ -318,15 +318,51 @@ theorem ctx_done_before_release_partial (s : Sys) (v i : Nat)
       rw [if_pos hext, hd] at hn; cases hn
   · rw [if_neg hrun, hd] at hn; cases hn
 
-/-- MISSING in the real code: on the error path (`monErr`: the extend script fails with a
-server/network error) the key is deleted BEFORE `released++ … cancel()`. Witness for m = 1: the
-holder's only key is deleted while its context is still live in the state in between. -/
+/-- the monitor's early decision does not change where `monErr` ends -/
+theorem exitMon_preExit (m n : Nat) (h : Holder) (i : Nat) : exitMon m n (preExit m n h i) i = exitMon m n h i := by
+  unfold exitMon preExit
+  by_cases hc : cnt n (isExited { h with mons := upd h.mons i .exited }) ≥ m
+  · simp only [hc, if_true]
+    split <;> rfl
+  · simp only [hc, if_false]
+
+/-- ERROR PATH, repaired order (fix 04be27c): when an extend fails with a server/network error
+the monitor decides `leaving++ >= majority → cancel()` before it issues its DEL. So in the state
+in which the DEL is issued (`delState`) the holder's context is done whenever this monitor is
+the `m`-th one to end, i.e. whenever giving up this key costs the holder its majority. What the
+clause means under partial loss: a key given up after an extend error while fewer than `m`
+monitors have ended is a LOSS the holder notices and survives with a majority of running
+monitors, not a release of the lock. -/
+theorem ctx_done_before_release (s : Sys) (v i : Nat)
+    (hmaj : s.m ≤ cnt s.n (isExited { s.hs v with mons := upd (s.hs v).mons i .exited })) :
+    ((delState s v i).hs v).cancelled = true := by
+  simp only [delState, setH, upd, if_true, preExit]
+  rw [if_pos hmaj]
+
+/-- both deletion paths together: a holder's own delkey removes a key only when its context is
+already done, or (error path) while fewer than `m` of its monitors have ended -/
+theorem delkey_when_done_or_minor_loss (s : Sys) (v i : Nat) (hd : s.regs i = some v) :
+    ((next s (.mon v i)).regs i = none → (s.hs v).cancelled = true) ∧
+    (((delState s v i).hs v).cancelled = true ∨
+      cnt s.n (isExited { s.hs v with mons := upd (s.hs v).mons i .exited }) < s.m) := by
+  refine ⟨ctx_done_before_release_partial s v i hd, ?_⟩
+  by_cases hmaj : s.m ≤ cnt s.n (isExited { s.hs v with mons := upd (s.hs v).mons i .exited })
+  · exact Or.inl (ctx_done_before_release s v i hmaj)
+  · exact Or.inr (by omega)
+
+/-- the UNREPAIRED order (before fix 04be27c: delkey, then `released++ … cancel()`): the DEL was
+issued in the state `s` itself. Witness for m = 1: the holder's only key is deleted while its
+context is live; with the repaired order the context is done in the state of the DEL. -/
 def wPre : Sys := run (init 1) [.acq 7 0, .ret 7]
 
 theorem ctx_done_before_release_fails_on_error :
     live wPre 7 = true ∧ wPre.regs 0 = some 7 ∧
-    (delScript 7 (wPre.regs 0)).1 = none ∧        -- the DEL the monitor issues first
+    (delScript 7 (wPre.regs 0)).1 = none ∧        -- the DEL the monitor issued first
     (next wPre (.monErr 7 0)).regs 0 = none ∧ live (next wPre (.monErr 7 0)) 7 = false := by
+  decide
+
+theorem ctx_done_before_release_witness_repaired :
+    live (delState wPre 7 0) 7 = false ∧ (delState wPre 7 0).regs 0 = some 7 := by
   decide
 
 /-! ### 5. loss is noticed -/
